@@ -15,7 +15,7 @@ theorem C07_gensym_fresh (names : List String) (pre : String) : gensym names pre
   gensym_fresh names pre
 
 /-- and it is the prefix followed by a decimal index -/
-theorem C07_gensym_form (names : List String) (pre : String) : ∃ i, gensym names pre = pre ++ toString i :=
+theorem C07_gensym_form (names : List String) (pre : String) : ∃ i : Nat, gensym names pre = pre ++ toString i :=
   gensym_form names pre
 
 /-- **the generated scope is well formed**: every identifier the wrapper invents (annotation names,
